@@ -269,6 +269,18 @@ Sqr(x) ==
                   IN IF zc = OutOfRange THEN zc ELSE NormW(zc)
              ELSE NormW(z0)
 
+(* shl10VU_g / shr10VU_g: shift a vector by s decimal digits, s < dw = digits per word (Bs = 10^dw); <<z, carry>> *)
+RECURSIVE PowTen(_)
+PowTen(k) == IF k = 0 THEN 1 ELSE 10 * PowTen(k - 1)
+ShlVU(x, s, dw) ==
+  IF s = 0 \/ Len(x) = 0 THEN <<x, 0>>
+  ELSE LET d == PowTen(dw - s)  m == PowTen(s)
+       IN <<[i \in 1..Len(x) |-> (x[i] % d) * m + (IF i = 1 THEN 0 ELSE x[i - 1] \div d)], x[Len(x)] \div d>>
+ShrVU(x, s, dw) ==
+  IF s = 0 \/ Len(x) = 0 THEN <<x, 0>>
+  ELSE LET d == PowTen(s)  m == PowTen(dw - s)
+       IN <<[i \in 1..Len(x) |-> x[i] \div d + (IF i = Len(x) THEN 0 ELSE (x[i + 1] % d) * m)], (x[1] % d) * m>>
+
 MulCorrect(x, y) == LET r == Mul(x, y) IN WordsOK(r) /\ r = NormW(r) /\ ValW(r) = ValW(x) * ValW(y)
 SqrCorrect(x) == LET r == Sqr(x) IN WordsOK(r) /\ r = NormW(r) /\ ValW(r) = ValW(x) * ValW(x)
 
